@@ -9,6 +9,8 @@ SPEC = {
     "level": "proof",
     "tie": "T1: cluster/placement.go distributePoints is translated to SemaModel/Generated/Placement.lean on every run (tools/go2lean, extended subset) and "
            "C15_tie proves that the hand-written C15.distribute equals the translated function for all inputs (representation maps in C15/Tie.lean); "
+           "C15_map_bridge / C15_tie_assignments: the Go map built by shardAssignments[id] = [2]int{lo, hi} (Go.mapSet of the generated module) IS the model's assignment list when the ids are distinct; "
+           "the quota test at the head of ClusterNode.InsertPoints (from `totalPoints := int64(0)` to the comparison with col.UserPlan.MaxCollectionPointCount) is translated as a fragment to SemaModel/Generated/Quota.lean on every run and C15_tie_quota proves it equal to the model's overQuota (error ErrQuotaReached, no other effect); the quota lines of RPCCreateCollection are outside the translator's subset (a PrefixScan callback assigning a captured counter, a write through the reply pointer) and stay with the hand model + T3; "
            "T3: the real cluster.distributePoints (tagged wrapper cluster.VerifDistributePoints) and the hand-written Lean model are run on the same op lines "
            "(boundary grid: count limit 1..3, size limit 16..48, 0..2 shards at / just below / above each limit, 0..4 points; random: 0..5 shards, 0..13 points, "
            "limits incl. 0 and negative, point sizes from 16 (empty Data) to a whole shard +-1, createShardFn failing after 0..29 calls); "
@@ -20,6 +22,10 @@ SPEC = {
         "Sema.C15.C15_diverges_without_fits", "Sema.C15.C15_fits_or_stuck",
         "Sema.C15.C15_quota_insert", "Sema.C15.C15_count", "Sema.C15.C15_quota_respected", "Sema.C15.C15_quota_create",
         "Sema.C15.C15_tie",
+        # the Go map of the assignments is the model's list (ids distinct); the tie read off as the Go result
+        "Sema.C15.C15_map_bridge", "Sema.C15.C15_tie_assignments",
+        # the quota test of ClusterNode.InsertPoints: generated fragment (Generated/Quota.lean) = the model's overQuota
+        "Sema.C15.C15_tie_quota",
     ],
     "trusted_base": [
         "int64 sizes / counts / limits are modelled in Int: sums are assumed not to overflow 2^63",
